@@ -76,6 +76,33 @@ def single_writer(prog, rep):
         rep.check(vals["id"] == ["id"] and vals["duration"] == ["duration"] and vals["data"] in (["data or {}"], ["data if data is not None else {}"]) and any(v == "_timestamp_parse(timestamp)" or v == "timestamp" for v in vals["timestamp"]), "ONE-WRITER", init.short, "values", f"{vals}", f"__init__ stores {vals}: each field must be set from the parameter of the same name", init.loc())
 
 
+def event_order(prog, rep, rule="ORDER-KEY"):
+    """sorted(events) is total for events: Event.__lt__ compares the timestamps and nothing that may be None or of mixed types"""
+    rep.rule(rule, "Event.__lt__ on two events returns self.timestamp < other.timestamp (a comparison of two aware datetimes, always defined): comparing further fields (an id that is None for fresh events and an int for stored ones, a data dict) makes sorted() raise TypeError for events that tie on the earlier fields")
+    fi = prog.func("Event.__lt__")
+    o = fi.params[1] if len(fi.params) > 1 else "other"
+    rets = [r for r in walk_own(fi.node) if isinstance(r, ast.Return) and r.value is not None]
+    bad = None
+    for r in rets:
+        v = r.value
+        if isinstance(v, ast.Constant) or norm(v) == "NotImplemented":
+            continue
+        names = {x.attr for x in ast.walk(v) if isinstance(x, ast.Attribute) and isinstance(x.value, ast.Name) and x.value.id in ("self", o)} | {x.slice.value for x in ast.walk(v) if isinstance(x, ast.Subscript) and isinstance(x.value, ast.Name) and x.value.id in ("self", o) and isinstance(x.slice, ast.Constant)}
+        ok = norm(v) in (f"self.timestamp < {o}.timestamp", f"{o}.timestamp > self.timestamp", f"self['timestamp'] < {o}['timestamp']")
+        if not ok:
+            extra = sorted(names - {"timestamp"})
+            if extra and any(e_ in ("id", "data") for e_ in extra):
+                bad = (r, f"`{norm(v)[:80]}` also compares {extra}: an id is None for an event that was never stored and an int for a stored one (None < 1 raises TypeError), a data dict has no order: sorted() over events that tie on the earlier fields raises instead of sorting")
+            elif not ok and bad is None:
+                bad = (r, None)
+    if bad and bad[1]:
+        rep.violation(rule, fi.short, "sort key", bad[1], fi.loc(bad[0]))
+    elif bad:
+        rep.undecided(rule, fi.short, "sort key", f"unrecognised ordering `{norm(bad[0].value)[:80]}`", fi.loc(bad[0]))
+    else:
+        rep.ok(rule, fi.short, "sort key", "timestamp only", fi.loc())
+
+
 def normalisation(prog, rep):
     rep.rule("NORMALISE", "the timestamp setter stores _timestamp_parse(x).astimezone(timezone.utc); _timestamp_parse parses strings with iso8601.parse_date, floors microseconds to a multiple of 1000 on every path, and attaches UTC exactly when the value is naive")
     st = prog.func("Event.timestamp.setter")
